@@ -38,6 +38,25 @@ DESC = {
  "C17-2": "LAMMPS writer: species labels by first appearance, indices by ascending Z",
  "C19-2": "`RandomDisplacements._setup_sampling_qpoints`: commensurate points of the transposed supercell matrix",
  "C20-2": "`EOSFit.__init__`: volumes sorted, energies not",
+ "C01-3": "`distribute_fc2` (C): symmetry index looked up by position in `atom_list` instead of by atom (compact force constants)",
+ "C02-3": "Python `_run_py_dynamical_matrix`: phase factors of equidistant images averaged once more (÷m twice)",
+ "C03-3": "`get_dynmat_ij` (C): assumes supercell atoms are stored in blocks per primitive atom",
+ "C04-3": "`Primitive`: species guard compares atomic numbers, so indexed symbols (Cl/Cl1) are merged",
+ "C05-3": "`get_smallest_vectors`: caller's `symprec` no longer passed on",
+ "C06-3": "`transform_dynmat_to_fc_ij` (C): sine part of the image average no longer divided by the multiplicity",
+ "C07-3": "`distribute_fc2` (C): permutation applied to the source instead of the target column",
+ "C08-3": "`get_dm` (C): Wang charge-sum block taken for (j, i) instead of (i, j)",
+ "C09-3": "`_get_rotations_keeping_shift`: returns the transposed rotations",
+ "C10-3": "`mode_F`: rewritten as kT·log(2 sinh(ħω/2kT)) (overflows to inf at low T, where the original is finite)",
+ "C11-3": "`get_grid_index_single_mesh` (C): y stride uses mesh[1] instead of mesh[0]",
+ "C12-3": "`GruneisenBase`: reference volume replaced by the mean of the strained volumes",
+ "C13-3": "`get_dC` (C): d/dq_y of q·ε·q takes the xz instead of the yz components of ε",
+ "C14-3": "`BandStructure._solve_dm_on_path`: NAC approach direction at Γ handed over in Cartesian instead of reduced coordinates",
+ "C15-3": "`Phonopy.__init__`: caller's unit cell kept by reference",
+ "C16-3": "yaml dumper writes `primitive_matrix` / `supercell_matrix` transposed",
+ "C17-3": "`wien2k._distribute_forces`: forces of dependent atoms rotated with R instead of Rᵀ",
+ "C19-3": "`RandomDisplacements`: sign of the phase that turns D-type into C-type eigenvectors",
+ "C20-3": "`QHA._set_thermal_expansion`: central difference divided by 2·(T[i+1] − T[i])",
 }
 rows = []
 for d in sorted(glob.glob('/verif/seeded/C*')):
